@@ -32,10 +32,54 @@ def resToJson : Except Err Msg → Json
   | .error .value => Json.mkObj [("err", "ValueError")]
   | .error .type_ => Json.mkObj [("err", "TypeError")]
 
+
+def msgOptIntOfJson (x : Json) : Option (Option Int) :=
+  if x.isNull then some none else (jInt? x).map some
+
+def msgUpdOfJson (j : Json) : Option Upd := do
+  let u ← (jField? j "u").bind jStr?
+  if u == "obs" then pure .observe
+  else if u == "leaf" then
+    let k ← (jField? j "k").bind jNat?
+    let v ← (jField? j "v").bind jInt?
+    pure (.setLeaf k v)
+  else if u == "bytes" then
+    let b ← (jField? j "b").bind jNats?
+    pure (.setBytes b)
+  else if u == "addr" then
+    let a ← (jField? j "a").bind jInt?
+    pure (.setAddr a)
+  else if u == "values" then
+    let v ← (jField? j "v").bind jArr?
+    let vs ← v.toList.mapM msgOptIntOfJson
+    pure (.setValues vs)
+  else if u == "item" then
+    let i ← (jField? j "i").bind jNat?
+    let v ← (jField? j "v").bind msgOptIntOfJson
+    pure (.setItem i v)
+  else if u == "append" then
+    let v ← (jField? j "v").bind msgOptIntOfJson
+    pure (.append v)
+  else if u == "pop" then pure .pop
+  else if u == "insert" then
+    let i ← (jField? j "i").bind jNat?
+    let v ← (jField? j "v").bind msgOptIntOfJson
+    pure (.insert i v)
+  else if u == "del" then
+    let i ← (jField? j "i").bind jNat?
+    pure (.delete i)
+  else none
+
 def handleMsg (op : String) (j : Json) : Option Json :=
   if op == "msg.ser" then do
     let m ← (jField? j "m").bind msgOfJson
     pure (Json.mkObj [("b", ofOpt ofNats (serialize Gen.msgTables m))])
+  else if op == "msg.hist" then do
+    let m ← (jField? j "m").bind msgOfJson
+    let us ← (jField? j "us").bind jArr?
+    let us ← us.toList.mapM msgUpdOfJson
+    let m' := applyUpds m us
+    pure (Json.mkObj [("m", msgToJson m'), ("b", ofOpt ofNats (serialize Gen.msgTables m'))])
   else if op == "msg.deshost" then do
     let b ← (jField? j "b").bind jNats?
     pure (resToJson (deserializeHost Gen.msgTables b))
